@@ -15,6 +15,8 @@ import (
 	"sort"
 	"strconv"
 	"strings"
+	"sync"
+	"sync/atomic"
 	"testing"
 	"time"
 
@@ -577,17 +579,50 @@ func TestC05_RollingDescriptors(t *testing.T) {
 			}
 			end := time.Now().Add(time.Duration(3500+r*400) * time.Millisecond)
 			i := 0
+			// odd runs: several writers hammer the appender around every boundary; a quiescent
+			// point is reached by taking the writers' lock exclusively
+			var quiet sync.RWMutex
+			var extra atomic.Int64
+			var wwg sync.WaitGroup
+			if r%2 == 1 || runs == 2 && r == 0 {
+				for w := 0; w < 8; w++ {
+					wwg.Add(1)
+					go func() {
+						defer wwg.Done()
+						for time.Now().Before(end) {
+							now := time.Now()
+							d := now.Sub(now.Truncate(time.Second))
+							if d > 40*time.Millisecond && d < 960*time.Millisecond {
+								time.Sleep(5 * time.Millisecond)
+								continue
+							}
+							quiet.RLock()
+							a.Write([]byte("id=" + strconv.Itoa(1_000_000+int(extra.Add(1))) + "\n"))
+							quiet.RUnlock()
+						}
+					}()
+				}
+			}
 			for time.Now().Before(end) {
+				quiet.RLock()
 				a.Write([]byte("id=" + strconv.Itoa(i) + "\n"))
+				quiet.RUnlock()
 				i++
 				// quiescent point: no write in progress on this appender
-				if open := fdsInto(dir); len(open) > 2 {
+				quiet.Lock()
+				open := fdsInto(dir)
+				quiet.Unlock()
+				if len(open) > 2 {
+					end = time.Now()
+					wwg.Wait()
 					a.Stop()
 					res <- outcome{err: fmt.Errorf("a running rolling appender holds %d descriptors %v while no write is in progress (at most two expected)", len(open), open)}
 					return
 				}
 				time.Sleep(time.Duration(20+7*r) * time.Millisecond)
 			}
+			wwg.Wait()
+			i += int(extra.Load())
 			a.Stop()
 			if open := fdsInto(dir); len(open) != 0 {
 				res <- outcome{err: fmt.Errorf("after Stop the rolling appender still holds %v", open)}
